@@ -65,3 +65,9 @@ Proof.
 Qed.
 Print Assumptions C10_content_independent_of_initial.
 (* per-call state: process() stores nothing on the reader (C09_reusable) and builds the model and the datasets per call *)
+(* ... and per block: the worker bodies of the CURRENT source (regenerated, helpers and overridden methods looked through) write no state that is
+   shared between blocks - nothing a block leaves behind on the object, the model or a cache can reach a later block or a later call *)
+From HV Require Import Conc.Sem Conc.IR Conc.Instances.
+Theorem C10_workers_keep_no_state : wf_worker (guard_view fuse_worker) = true /\ wf_worker (guard_view compare_worker) = true.
+Proof. split; vm_compute; reflexivity. Qed.
+Print Assumptions C10_workers_keep_no_state.
